@@ -117,6 +117,9 @@ def build_jobs(ctx, rng):
                 add(f, f, p, H, W, dtB, "float", geo="coords")
         add("focal_mean", "focal_mean", {"passes": 1, "excludes": ["nan"]}, H, W, "float64", "float", passes=1)
         add("focal_mean", "focal_mean", {"passes": 2, "excludes": ["nan", 0]}, H, W, "float32", "float", passes=2)
+        # excludes WITHOUT NaN: the NaN halo cells are then averaged like any other cell in the first pass
+        add("focal_mean", "focal_mean", {"passes": 2, "excludes": [rng.choice([0, 1, 1000.5])]}, H, W, "float64", "float",
+            passes=2)
         if not quick:
             add("focal_mean", "focal_mean", {"passes": 3, "excludes": [1, 2]}, H, W, "int32", "int", passes=3)
         knames = list(KERNELS) if not quick else rng.sample(list(KERNELS), 4)
